@@ -112,7 +112,9 @@ Next == AddLeaf \/ AddBrk \/ OpenIf \/ OpenFor \/ OpenCap \/ Else \/ Elif \/ Clo
 
 RECURSIVE Join(_)
 Join(s) == IF s = <<>> THEN "" ELSE Head(s) \o Join(Tail(s))
-Res(e) == LET r == Run(prog, e) IN [r |-> r.r, out |-> Join(r.out)]
+\* (outputs beyond 3000 characters -- nested loops over the 26-character string, reached only in simulation -- are not joined
+\* into one string: the program is then "unspec" for that environment and only has to render without a panic)
+Res(e) == LET r == Run(prog, e) IN IF Len(r.out) > 3000 THEN [r |-> "unspec", out |-> ""] ELSE [r |-> r.r, out |-> Join(r.out)]
 InvWellEnded == done => \A k \in 1..Len(Envs) : WellEnded(prog, Envs[k])
 \* with autoescaping on and no use of `safe`/safe-registered callables, no raw special character from data can be in the output:
 \* checked on the specification itself for the escape theme (texts are the only source of raw specials)
